@@ -801,6 +801,11 @@ func (p *parser) parseHashLiteral() ast.Expression {
 	for !p.peekTokenIs(token.RBRACE) {
 		p.nextToken()
 		key := p.parseExpression(LOWEST)
+		if key == nil {
+			// (a keyword such as let: parseExpression gives up without an error of its own)
+			p.errors = append(p.errors, fmt.Sprintf("line %d: %q cannot be a hash key", p.curToken.LineNumber, p.curToken.Literal))
+			return nil
+		}
 
 		if !p.expectPeek(token.COLON) {
 			return nil
